@@ -21,7 +21,8 @@ EXHAUSTIVE = True
 RULE = (
     "complete enumeration of the grid (geometric quantity type, cell in {interval, triangle, tetrahedron}, gdim in "
     "tdim..3, facet, ridge for ridge quantities, preserve_types in a fixed list) times N random vertex sets per grid "
-    "point (N=6 quick, 150 thorough; seeds derived from VERIF_SEED); non-trivial = the lowering actually rewrote "
+    "point (N=6 quick, 150 thorough; seeds derived from VERIF_SEED), plus all ordered pairs q1/q2 of the ten scalar "
+    "quantities in one expression on every admissible cell (first and last facet); non-trivial = the lowering actually rewrote "
     "the quantity (result is not the input terminal); distinct = distinct (grid point, vertex seed)."
 )
 ASSUMPTIONS = [
@@ -74,10 +75,63 @@ def enumerate_cases(tier):
                         for k in range(n if pk == 0 else max(1, n // 3)):
                             out.append({"q": q, "cell": cell, "gdim": g, "facet": f, "ridge": r, "preserve": pres,
                                         "env_seed": seed0 * 100003 + k})
+    # quotients of two scalar quantities in one expression (one lowering pass, shared intermediate results), in
+    # both orders
+    npair = 2 if tier == "quick" else 20
+    for q in SCALARS:
+        for q2 in SCALARS:
+            if q == q2:
+                continue
+            for cell, g in CELLS:
+                if not (admissible(q, cell, g) and admissible(q2, cell, g)):
+                    continue
+                t = TDIM[cell]
+                for f in sorted({0, t}):
+                    for k in range(npair):
+                        out.append({"q": q, "q2": q2, "cell": cell, "gdim": g, "facet": f, "ridge": 0, "preserve": [],
+                                    "env_seed": seed0 * 100003 + 7919 + k})
     return out
 
 
+SCALARS = ["CellVolume", "FacetArea", "Circumradius", "MinCellEdgeLength", "MaxCellEdgeLength", "CellDiameter",
+           "MinFacetEdgeLength", "MaxFacetEdgeLength", "JacobianDeterminant", "FacetJacobianDeterminant"]
+
+
+def check_pair(case):
+    import ufl
+    from ufl.algorithms.apply_geometry_lowering import apply_geometry_lowering
+
+    from vf.elements import make_mesh
+
+    mesh = make_mesh(case["cell"], case["gdim"])
+    q1, q2 = getattr(ufl.classes, case["q"])(mesh), getattr(ufl.classes, case["q2"])(mesh)
+    rng = np.random.default_rng([case["env_seed"], len(case["q"]), len(case["q2"]), case["facet"]])
+    geo = Geometry.random(rng, case["cell"], case["gdim"], max_cond=50.0)
+    env = Env(geo, geo.random_facet_point(rng, case["facet"]), facet=case["facet"], seed=case["env_seed"])
+    try:
+        low = ufl.as_ufl(apply_geometry_lowering(q1 / q2, []))
+    except RecursionError:
+        raise
+    except Exception as ex:
+        raise Violation(f"lowering of {case['q']}/{case['q2']} raised {type(ex).__name__}: {str(ex)[:200]}",
+                        {"kind": "raised-pair:" + exc_bucket(ex), "q": case["q"], "q2": case["q2"]})
+    check_acyclic(low, "output")
+    I = Interp(env, order=1)
+    got = eval_output(Guard(I, min_den=1e-9), low)
+    try:
+        exp = float(I._geo(q1, None)) / float(I._geo(q2, None))
+    except Unsupported as ex:
+        raise Discard("unsupported:" + str(ex)[:30])
+    if not close(np.asarray(exp), got, rtol=1e-8, atol=1e-10):
+        raise Violation(f"{case['q']}/{case['q2']} on {case['cell']} gdim {case['gdim']} facet {case['facet']}: direct {exp} vs lowered "
+                        f"{np.ravel(got)[:2]} (rel err {rel_err(np.asarray(exp), got):.3g})",
+                        {"kind": "value-pair", "q": case["q"], "q2": case["q2"], "cell": case["cell"]})
+    return {"nontrivial": True, "labels": ["pair", "q:" + case["q"]]}
+
+
 def check_case(case):
+    if case.get("q2"):
+        return check_pair(case)
     import ufl
     from ufl.algorithms.apply_geometry_lowering import apply_geometry_lowering
 
